@@ -120,6 +120,17 @@ class TraceRun:
       tr.events.append(Ev("copy", key="copy", outs=tr._names([dest]), bind=tr._names([dest, src])))
       return tr.saved_copy(dest, src, *a, **kw)
 
+    # Warp's host-side sort / scan utilities read device data that no kernel has produced in trace mode: record only
+    self.saved_utils = {k: getattr(wp.utils, k) for k in ("segmented_sort_pairs", "array_scan", "radix_sort_pairs") if hasattr(wp.utils, k)}
+
+    def mk_util(name):
+      def f(*a, **kw):
+        tr.events.append(Ev("util", key=name, outs=tr._names([x for x in a if isinstance(x, wp.array)])))
+
+      return f
+
+    for k in self.saved_utils:
+      setattr(wp.utils, k, mk_util(k))
     wp.launch, wp.launch_tiled, wp.capture_while, wp.capture_if = launch, launch_tiled, capture_while, capture_if
     wp.array.zero_, wp.array.fill_ = zero_, fill_
     wp.copy = copy
@@ -130,6 +141,8 @@ class TraceRun:
       setattr(wp, k, v)
     wp.array.zero_, wp.array.fill_ = self.saved_arr
     wp.copy = self.saved_copy
+    for k, v in self.saved_utils.items():
+      setattr(wp.utils, k, v)
     return False
 
   def launches(self):
